@@ -44,6 +44,11 @@ func (e StdEng) RepeatReuse(t Tensor, reuse Tensor, axis int, repeats ...int) (T
 		if !reuse.Shape().Eq(newShape) {
 			return nil, errors.Errorf("Reuse shape is %v. Expected shape is %v", reuse.Shape(), newShape)
 		}
+		if !rr.DataOrder().IsContiguous() {
+			// the repeats are laid out back to back: in a non-contiguous view they would land on
+			// elements of the viewed tensor that the view does not address
+			return nil, errors.Errorf("Reuse is a non-contiguous view, which RepeatReuse cannot fill")
+		}
 		return e.denseRepeat(tt, rr, newShape, newAxis, size, newRepeats)
 	default:
 		return nil, errors.Errorf("NYI")
